@@ -36,6 +36,9 @@ func checkStream(r *rig, s *streamCtl) (key, detail string) {
 		}
 	}
 	s.mu.Unlock()
+	if s.ambiguousStart {
+		return "", ""
+	}
 	if s.from > s.headAtOpen {
 		if len(sent) > 0 {
 			return "C11/sent-although-start-beyond-head", fmt.Sprintf("stream %d started at %d beyond head %d but sent %v", s.id, s.from, s.headAtOpen, sent)
@@ -184,7 +187,13 @@ func TestC11Stream(t *testing.T) {
 				k := rapid.IntRange(1, 6).Draw(t, "steps")
 				st := ""
 				for i := 0; i < k; i++ {
-					st = r.step(s, nil)
+					which := 0
+					if len(s.more) > 1 {
+						// two goroutines of this stream are parked (hand-over vs. queued callback): the order is a generated choice
+						which = rapid.IntRange(0, len(s.more)-1).Draw(t, "which")
+						flags["handover-race"] = true
+					}
+					st = r.step(s, which, nil)
 					if st == "ended" || st == "idle" {
 						break
 					}
@@ -192,15 +201,50 @@ func TestC11Stream(t *testing.T) {
 				hist = append(hist, fmt.Sprintf("step(s%d,%d)->%s", s.id, k, st))
 				r.pollPut()
 			},
+			"handover": func(t *rapid.T) {
+				// drive one stream to the hand-over between catch-up and live delivery, then store beacons while it sits there:
+				// the queued callbacks and the hand-over's own read of the head are released in a generated order afterwards
+				var cand *streamCtl
+				for _, s := range r.streams {
+					if !s.ended && s.from >= 1 && !s.ambiguousStart && (s.parkedAt("register") >= 0 || s.parkedAt("next") >= 0 || s.parkedAt("seek") >= 0 || s.parkedAt("send") >= 0) {
+						s.mu.Lock()
+						reg := s.registered
+						s.mu.Unlock()
+						if !reg {
+							cand = s
+						}
+					}
+				}
+				if cand == nil || r.putBusy != nil || !canPut() {
+					t.Skip("no stream in its catch-up phase")
+				}
+				for i := 0; i < 200 && !cand.ended && cand.parkedAt("register") < 0; i++ {
+					r.step(cand, 0, nil)
+				}
+				if cand.ended || cand.parkedAt("register") < 0 {
+					t.Skip("stream ended before the hand-over")
+				}
+				st := r.step(cand, cand.parkedAt("register"), nil)
+				k := rapid.IntRange(1, 3).Draw(t, "putsDuringHandover")
+				for i := 0; i < k && puts < 14; i++ {
+					if !r.put() {
+						break
+					}
+					puts++
+				}
+				st = r.await(cand)
+				hist = append(hist, fmt.Sprintf("handover(s%d,puts=%d)->%s", cand.id, k, st))
+				flags["put-during-handover"] = true
+			},
 			"sendFail": func(t *rapid.T) {
 				if len(r.streams) == 0 {
 					t.Skip("no stream")
 				}
 				s := r.streams[rapid.IntRange(0, len(r.streams)-1).Draw(t, "stream")]
-				if s.ended || s.cur == nil || s.cur.where != "send" {
+				if s.ended || s.parkedAt("send") < 0 {
 					t.Skip("not at a send")
 				}
-				st := r.step(s, errSend)
+				st := r.step(s, s.parkedAt("send"), errSend)
 				hist = append(hist, fmt.Sprintf("sendFail(s%d)->%s", s.id, st))
 				flags["send-error"] = true
 			},
@@ -228,7 +272,7 @@ func TestC11Stream(t *testing.T) {
 				}
 				// let live streams reach their send gates
 				for _, s := range r.streams {
-					if !s.ended && s.cur == nil {
+					if !s.ended && len(s.more) == 0 {
 						r.await(s)
 					}
 				}
@@ -242,7 +286,7 @@ func TestC11Stream(t *testing.T) {
 					t.Skip("ended")
 				}
 				s.cancel()
-				s.cur = nil
+				s.more = nil
 				st := r.await(s)
 				hist = append(hist, fmt.Sprintf("cancel(s%d)->%s", s.id, st))
 				flags["cancel"] = true
@@ -253,14 +297,14 @@ func TestC11Stream(t *testing.T) {
 		for i := 0; i < 200 && r.putBusy != nil; i++ {
 			for _, s := range r.streams {
 				if !s.ended {
-					r.step(s, nil)
+					r.step(s, 0, nil)
 				}
 			}
 			r.pollPut()
 		}
 		for _, s := range r.streams {
 			for i := 0; i < 400 && !s.ended; i++ {
-				if st := r.step(s, nil); st == "idle" || st == "ended" {
+				if st := r.step(s, i, nil); st == "idle" || st == "ended" {
 					break
 				}
 			}
@@ -274,7 +318,7 @@ func TestC11Stream(t *testing.T) {
 			s.mu.Lock()
 			sent := append([]uint64(nil), s.sent...)
 			s.mu.Unlock()
-			if s.from >= 1 && s.from <= s.headAtOpen {
+			if s.startRead && !s.ambiguousStart && s.from >= 1 && s.from <= s.headAtOpen {
 				if len(sent) == 0 || sent[len(sent)-1] != r.head {
 					last := "nothing"
 					if len(sent) > 0 {
@@ -286,7 +330,7 @@ func TestC11Stream(t *testing.T) {
 		}
 		// a stream that started beyond the head must have been refused
 		for _, s := range r.streams {
-			if s.from > s.headAtOpen && !s.ended {
+			if s.startRead && !s.ambiguousStart && s.from > s.headAtOpen && !s.ended {
 				fail("C11/start-beyond-head-not-refused", fmt.Sprintf("stream %d asked from %d with head %d and was not refused", s.id, s.from, s.headAtOpen))
 			}
 		}
